@@ -9,12 +9,13 @@
 (*   cycle_reported     an invocation that needs a resource on a dependency cycle never gets its      *)
 (*                      step body run; when it ends, it ends with the cycle error                     *)
 (*   no_false_cycle     with an acyclic dependency graph nobody gets a cycle error                    *)
-(* T.carve = TRUE skips failures of the known shapes (cause "overlapping_invocations") so that a      *)
-(* different failure hidden behind them is still reported.                                            *)
+(* Two verdicts per trace: the first failing clause, and the first failing clause when failures of   *)
+(* the known shapes (cause "overlapping_invocations") are skipped, so that a different failure hidden *)
+(* behind them is still reported.                                                                     *)
 EXTENDS Naturals, Sequences, FiniteSets, TLC, Json, IOUtils
 
 T == JsonDeserialize(IOEnv.TRACE_FILE)
-VARIABLES tid, l, verdict, cause
+VARIABLES tid, l, v1, v2
 Tr == T.traces[tid]
 Prog == Tr.prog
 Names == DOMAIN Prog.deps
@@ -64,22 +65,25 @@ NoOtherFailure(e) == /\ \A p \in Procs : e.post.status[p] \notin {"failed", "los
                      /\ (\E p \in Procs : e.post.status[p] = "waiting") => (\E q \in Procs : e.post.status[q] = "blocked")
                      /\ e.post.run_error # "other"
 
-Carved(c) == T.carve /\ c = "overlapping_invocations"
+Carved(carve, c) == carve /\ c = "overlapping_invocations"
 
-Result(i) == LET e == Tr.events[i] IN
+Result(i, carve) == LET e == Tr.events[i] IN
    IF ~NoOtherFailure(e) THEN <<"unexpected_failure", "-">>
    ELSE IF ~CachedOnce(e) THEN <<"cached_once", "-">>
    ELSE IF ~CycleReported(e) THEN <<"cycle_reported", "-">>
-   ELSE IF ~NoFalseCycle(e) /\ ~Carved(FalseCycleCause(e)) THEN <<"no_false_cycle", FalseCycleCause(e)>>
-   ELSE IF ~Fresh(e) /\ ~Carved(FreshCause(e)) THEN <<"fresh_per_invocation", FreshCause(e)>>
+   ELSE IF ~NoFalseCycle(e) /\ ~Carved(carve, FalseCycleCause(e)) THEN <<"no_false_cycle", FalseCycleCause(e)>>
+   ELSE IF ~Fresh(e) /\ ~Carved(carve, FreshCause(e)) THEN <<"fresh_per_invocation", FreshCause(e)>>
    ELSE <<"ok", "-">>
 
-Init == tid \in 1..Len(T.traces) /\ l = 1 /\ verdict = "ok" /\ cause = "-"
-Step == /\ verdict = "ok" /\ l <= Len(Tr.events)
-        /\ verdict' = Result(l)[1] /\ cause' = Result(l)[2]
+\* two verdicts per trace in one pass: v1 = first failing clause; v2 = first failing clause when failures of the
+\* known shapes are skipped
+Init == tid \in 1..Len(T.traces) /\ l = 1 /\ v1 = <<"ok", 0, "-">> /\ v2 = <<"ok", 0, "-">>
+Upd(v, carve) == IF v[1] # "ok" THEN v ELSE LET r == Result(l, carve) IN <<r[1], l, r[2]>>
+Step == /\ l <= Len(Tr.events) /\ (v1[1] = "ok" \/ v2[1] = "ok")
+        /\ v1' = Upd(v1, FALSE) /\ v2' = Upd(v2, TRUE)
         /\ l' = l + 1 /\ UNCHANGED tid
-Done == /\ (verdict # "ok" \/ l > Len(Tr.events))
-        /\ PrintT(<<"VERDICT", tid, verdict, l - 1, cause>>)
-        /\ UNCHANGED <<tid, l, verdict, cause>>
+Done == /\ (l > Len(Tr.events) \/ (v1[1] # "ok" /\ v2[1] # "ok"))
+        /\ PrintT(<<"VERDICT", tid, v1[1], v1[2], v1[3], v2[1], v2[2], v2[3]>>)
+        /\ UNCHANGED <<tid, l, v1, v2>>
 Next == Step \/ Done
 ====
